@@ -298,6 +298,22 @@ def load_known():
     return _known_cache
 
 
+def class_finding(kf, d):
+    """A finding identified by its CALL SITE rather than by an input list: an engine entry point driven directly on a
+    class of patterns it does not implement at all (every input on which the construct matters fails).  `class` holds
+    the property, the engine scope and a regular expression on the pattern text; nothing else is matched by it."""
+    scope = d.get("scope") or engine_scope(d.get("api", ""))
+    for f in kf.get("findings", []):
+        c = f.get("class")
+        if not c:
+            continue
+        if c["prop"] == d.get("prop") and c["scope"] == scope and re.search(c["pattern_re"], d.get("pattern", "")):
+            if c.get("api_re") and not re.search(c["api_re"], d.get("api", "")):
+                continue
+            return f["id"]
+    return None
+
+
 def classify(fail_paths, prop):
     """Split observed failures into known findings and violations."""
     kf, keymap = load_known()
@@ -315,6 +331,8 @@ def classify(fail_paths, prop):
                 d = json.loads(line)
                 total += 1
                 fid = keymap.get(key_hash(failure_key(d)))
+                if fid is None:
+                    fid = class_finding(kf, d)
                 if fid is not None:
                     known_hit[fid] = known_hit.get(fid, 0) + 1
                 else:
